@@ -32,6 +32,31 @@ def cases(tier, rng):
               [atom("len"), lst([atom("a"), atom("b"), atom("c")]), var(0, "$N")], [atom("path"), integer(1), var(0, "$To")],
               [atom("path"), var(0, "$From"), var(0, "$To")], [atom("nosuch"), var(0, "$X")], [atom("zero")]):
         out.append((progs.single_query_case(list(progs.LIB), q, 9), "library"))
+    out += large_cases(tier, rng)
+    return out
+
+def large_cases(tier, rng):
+    """beyond the small shapes: predicates of 20-40 clauses, queries with 10-60 answers, recursion 10-30 levels deep,
+    lists of 9-16 elements, more requests than there are answers"""
+    from gen.progs import fact, C, AND, OR, U, X, Y, Z, i
+    out = []
+    big = list(progs.LIB)
+    for k in range(1, 41): big.append(fact("num", i(k)))
+    for k in range(1, 31): big.append(fact("next", i(k), i(k + 1)))
+    big.append(rule(cplx("reach", X, Y), C("next", X, Y)))
+    big.append(rule(cplx("reach", X, Y), AND(C("next", X, Z), C("reach", Z, Y))))
+    big.append(rule(cplx("pair", X, Y), AND(C("num", X), C("num", Y), bip("greater_than", X, i(34)), bip("less_than", Y, i(4)))))
+    for k in range(1, 13): big.append(rule(cplx("many", X), AND(C("n", X), bip("less_than", X, i(k % 4 + 1)))))
+    l9 = lst([i(k) for k in range(1, 10)])
+    l16 = lst([i(k % 5) for k in range(16)])
+    V = lambda n: var(0, n)
+    qs = [([atom("num"), V("$N")], 45), ([atom("reach"), i(1), V("$To")], 35), ([atom("reach"), V("$From"), i(31)], 35),
+          ([atom("reach"), i(20), V("$To")], 15), ([atom("pair"), V("$A"), V("$B")], 22), ([atom("many"), V("$M")], 30),
+          ([atom("mem"), V("$E"), l16], 20), ([atom("app"), V("$P"), V("$S"), l9], 14), ([atom("len"), l16, V("$N")], 3),
+          ([atom("app"), l9, l16, V("$R")], 3), ([atom("mem"), i(4), l16], 6)]
+    for q, n in qs:
+        out.append((progs.single_query_case(big, q, n), "large"))
+        out.append((progs.hist(big, [progs.build(0, q), "(solve-all 0)", "(ask 0)"]), "large-solve-all"))
     return out
 
 RULE = ("(a) all bodies of 1-3 goals over a 7-goal alphabet (multi-answer calls, =, >, fail, a second variable) in "
@@ -39,7 +64,8 @@ RULE = ("(a) all bodies of 1-3 goals over a 7-goal alphabet (multi-answer calls,
         "(b) random stratified programs (1-3 generated predicates of 1-3 clauses over a library of facts and terminating "
         "recursive list/graph predicates; bodies: nested conjunctions/disjunctions of calls, =, comparisons, arithmetic, "
         "append/count/include/exclude; list patterns in heads), queried through next_solution (4-12 requests), solve_all and "
-        "solve; (c) the recursive library predicates themselves. Oracle: each request's answer must be the reference "
+        "solve; (c) the recursive library predicates themselves; (d) large shapes: predicates of 12-40 clauses, chains 30 links deep, lists of 9-16 elements, "
+        "queries with 10-60 answers asked more often than they have answers, also through solve_all. Oracle: each request's answer must be the reference "
         "search's next answer up to renaming of unbound variables (and solve/solve_all their formatted text). "
         "Non-trivial = the query has at least two answers.")
 
